@@ -17,7 +17,7 @@ RULE = (
     "Ellipse over all CURV axis pairs, Circle) x in-plane placement (rotation by k*pi/7 or k*90deg, scale, offset) x angle alphabet "
     "(k*pi/12 for k=-48..48, every exact vertex direction and +-1e-9 around it, +-2pi shifts); the returned distance is compared "
     "with the exact ray/boundary distance from the centroid (core centroid for rounded shapes; exact rational centroid, ray against "
-    "edges / offset edges and vertex arcs filtered by distance-to-core = r).  non-trivial = angle outside [0, 2pi) or pointing at a "
+    "edges / offset edges and vertex arcs filtered by distance-to-core = r).  Also: spheropolygons built from clockwise input; sizes down to 1e-9; edges tilted by 1e-6 from vertical/horizontal; whole-radian angles as int64 / int32 arrays and lists of ints must give what they give as floats.  non-trivial = angle outside [0, 2pi) or pointing at a "
     "vertex, or a non-identity placement."
 )
 ASSUMPTIONS = ["'theta uniform in [-4pi, 4pi]' replaced by the 97-point grid plus vertex directions and their +-1e-9 neighbours"]
